@@ -161,10 +161,18 @@ def run_case(case, ctx):
     ic = case["ignore_case"]
     info0 = dict(grammar=text_g, ignore_case=ic)
     try:
-        g1 = pgl.Grammar.from_string(text_g, recognizers=recs or None, ignore_case=ic)
-        lr = pgl.Parser(g1, consume_input=False, build_tree=True)
-        g2 = pgl.Grammar.from_string(text_g, recognizers=recs or None, ignore_case=ic)
-        glr = pgl.GLRParser(g2, consume_input=False)
+        def mk():
+            return pgl.Grammar.from_string(text_g, recognizers=recs or None, ignore_case=ic)
+
+        def passthrough(context, get_tokens):
+            # documented: "might decide to return this list if no change is necessary"
+            return get_tokens()
+        configs = []
+        for label, kw in (("", {}), ("pass-through custom_token_recognition", {"custom_token_recognition": passthrough})):
+            configs.append((label,
+                            pgl.Parser(mk(), consume_input=False, build_tree=True, **kw),
+                            pgl.GLRParser(mk(), consume_input=False, **kw),
+                            pgl.GLRParser(mk(), consume_input=False, lexical_disambiguation=True, **kw)))
     except parglare.GrammarError as e:
         # two string terminals that differ only in case are the same terminal
         # under ignore_case: the grammar is (rightly) rejected
@@ -199,51 +207,69 @@ def run_case(case, ctx):
             if want[0] == "skip":
                 ctx.label("outside-model:nofinish-string-with-second-string")
                 continue
-            # ------------------------- LR ---------------------------------
-            out = G.run_parse(lr, text)
-            if want[0] == "none":
-                if out.kind != "syntax":
-                    ctx.fail("lr-should-raise-SyntaxError-when-nothing-matches", outcome=out.kind,
-                             error=repr(out.exc)[:200], **info)
-                if out.exc.location.start_position != pos:
-                    ctx.fail("lr-syntax-error-position", reported=out.exc.location.start_position,
-                             expected=pos, **info)
-            elif want[0] == "ambiguous":
-                if not (out.kind == "other" and isinstance(out.exc, parglare.DisambiguationError)):
-                    ctx.fail("lr-should-raise-DisambiguationError", outcome=out.kind,
-                             remaining=sorted(name_of[j] for j in want[1]),
-                             got=repr(out.value if out.kind == "ok" else out.exc)[:200], **info)
-                got = sorted((t.symbol.name, len(t.value)) for t in out.exc.tokens)
-                exp = sorted((name_of[j], n) for j, n in want[1].items())
-                if got != exp:
-                    ctx.fail("DisambiguationError-tokens-differ", got=got, expected=exp, **info)
-            else:
-                _, j, n = want
-                if out.kind != "ok":
-                    ctx.fail("lr-should-pick-a-token", expected=[name_of[j], n], outcome=out.kind,
-                             error=repr(out.exc)[:300], **info)
-                leaves = T.canon_leaves(T.canon(out.value))
-                if len(leaves) < 2:
-                    ctx.fail("lr-result-without-token", **info)
-                got = (leaves[1][0], leaves[1][1], leaves[1][2])
-                if got != (name_of[j], pos, pos + n):
-                    ctx.fail("lr-picks-a-different-token", got=list(got), expected=[name_of[j], pos, pos + n],
-                             matching=sorted((name_of[x], y) for x, y in M.items()), **info)
-            # ------------------------- GLR ---------------------------------
-            gout = G.run_parse(glr, text)
-            if M:
-                P = max(terms[j]["prior"] for j in M)
-                exp = sorted((name_of[j], pos, pos + n) for j, n in M.items() if terms[j]["prior"] == P)
-                if gout.kind != "ok":
-                    ctx.fail("glr-should-pursue-matching-tokens", expected=exp, outcome=gout.kind,
-                             error=repr(gout.exc)[:200], **info)
-                n_t, loop = G.forest_len(gout.value)
-                got = sorted({T.canon_leaves(T.canon(gout.value[i]))[1] for i in range(n_t)})
-                if got != exp:
-                    ctx.fail("glr-pursues-a-different-token-set", got=got, expected=exp, **info)
-            else:
-                if gout.kind != "syntax":
-                    ctx.fail("glr-should-raise-SyntaxError-when-nothing-matches", outcome=gout.kind, **info)
+            for config, lr, glr, glr_ld in configs:
+                if config:
+                    info = dict(info, parser_option=config)
+                # ------------------------- LR ---------------------------------
+                out = G.run_parse(lr, text)
+                if want[0] == "none":
+                    if out.kind != "syntax":
+                        ctx.fail("lr-should-raise-SyntaxError-when-nothing-matches", outcome=out.kind,
+                                 error=repr(out.exc)[:200], **info)
+                    if out.exc.location.start_position != pos:
+                        ctx.fail("lr-syntax-error-position", reported=out.exc.location.start_position,
+                                 expected=pos, **info)
+                elif want[0] == "ambiguous":
+                    if not (out.kind == "other" and isinstance(out.exc, parglare.DisambiguationError)):
+                        ctx.fail("lr-should-raise-DisambiguationError", outcome=out.kind,
+                                 remaining=sorted(name_of[j] for j in want[1]),
+                                 got=repr(out.value if out.kind == "ok" else out.exc)[:200], **info)
+                    got = sorted((t.symbol.name, len(t.value)) for t in out.exc.tokens)
+                    exp = sorted((name_of[j], n) for j, n in want[1].items())
+                    if got != exp:
+                        ctx.fail("DisambiguationError-tokens-differ", got=got, expected=exp, **info)
+                else:
+                    _, j, n = want
+                    if out.kind != "ok":
+                        ctx.fail("lr-should-pick-a-token", expected=[name_of[j], n], outcome=out.kind,
+                                 error=repr(out.exc)[:300], **info)
+                    leaves = T.canon_leaves(T.canon(out.value))
+                    if len(leaves) < 2:
+                        ctx.fail("lr-result-without-token", **info)
+                    got = (leaves[1][0], leaves[1][1], leaves[1][2])
+                    if got != (name_of[j], pos, pos + n):
+                        ctx.fail("lr-picks-a-different-token", got=list(got), expected=[name_of[j], pos, pos + n],
+                                 matching=sorted((name_of[x], y) for x, y in M.items()), **info)
+                # ------------------------- GLR ---------------------------------
+                gout = G.run_parse(glr, text)
+                if M:
+                    P = max(terms[j]["prior"] for j in M)
+                    exp = sorted((name_of[j], pos, pos + n) for j, n in M.items() if terms[j]["prior"] == P)
+                    if gout.kind != "ok":
+                        ctx.fail("glr-should-pursue-matching-tokens", expected=exp, outcome=gout.kind,
+                                 error=repr(gout.exc)[:200], **info)
+                    n_t, loop = G.forest_len(gout.value)
+                    got = sorted({T.canon_leaves(T.canon(gout.value[i]))[1] for i in range(n_t)})
+                    if got != exp:
+                        ctx.fail("glr-pursues-a-different-token-set", got=got, expected=exp, **info)
+                else:
+                    if gout.kind != "syntax":
+                        ctx.fail("glr-should-raise-SyntaxError-when-nothing-matches", outcome=gout.kind, **info)
+                # ------------- GLR with lexical disambiguation on ---------------
+                lout = G.run_parse(glr_ld, text)
+                if want[0] == "none":
+                    if lout.kind != "syntax":
+                        ctx.fail("glr-lexdis-should-raise-SyntaxError-when-nothing-matches", outcome=lout.kind, **info)
+                else:
+                    chosen = {want[1]: want[2]} if want[0] == "token" else want[1]
+                    exp = sorted((name_of[j], pos, pos + n) for j, n in chosen.items())
+                    if lout.kind != "ok":
+                        ctx.fail("glr-lexdis-should-pursue-the-disambiguated-tokens", expected=exp, outcome=lout.kind,
+                                 error=repr(lout.exc)[:200], **info)
+                    n_t, loop = G.forest_len(lout.value)
+                    got = sorted({T.canon_leaves(T.canon(lout.value[i]))[1] for i in range(n_t)})
+                    if got != exp:
+                        ctx.fail("glr-lexdis-pursues-a-different-token-set", got=got, expected=exp, **info)
             ctx.label("positions")
             ctx.label("verdict:" + want[0])
             if len(M) >= 2:
